@@ -4,6 +4,9 @@ use crate::parsing::response::parse_response;
 use crate::request::PreparedRequest;
 use crate::streams::BaseStream;
 use http::Method;
+use std::alloc::{GlobalAlloc, Layout, System};
+use std::cell::Cell;
+use std::sync::atomic::{AtomicUsize, Ordering};
 
 fn valid_len(v: &str) -> Option<Option<u64>> {
     // Some(Some(n)) valid, Some(None) must be refused, None = not settled by the property (leading '+')
@@ -206,7 +209,7 @@ fn vp_native_response_body_end_to_end() {
             if csize == 1 && n > 9000 { continue; }
             let mut w = b"HTTP/1.1 200 OK\r\nTransfer-Encoding: chunked\r\n\r\n".to_vec();
             for (i, c) in payload.chunks(csize).enumerate() {
-                w.extend_from_slice(match i % 3 { 0 => format!("{:x}\r\n", c.len()), 1 => format!("{:X};ext=\"v\"\r\n", c.len()), _ => format!("0{:x} \r\n", c.len()) }.as_bytes());
+                w.extend_from_slice(match i % 4 { 0 => format!("{:x}\r\n", c.len()), 1 => format!("{:X};ext=\"v\"\r\n", c.len()), 2 => format!("0{:x} \r\n", c.len()), _ => format!("{:0>24x}\r\n", c.len()) }.as_bytes());
                 w.extend_from_slice(c); w.extend_from_slice(b"\r\n");
             }
             w.extend_from_slice(b"0\r\n\r\nTRAILING GARBAGE");
@@ -319,4 +322,50 @@ fn vp_native_head_any_segmentation() {
         } }
     }
     println!("VP-NATIVE head_any_segmentation cases={}", cases);
+}
+
+// ---- an allocator that records the largest single request made by a thread that asked for it (C05: no allocation proportional to a
+// size that is merely declared on the wire); everything is passed on to the system allocator
+struct Counting;
+static PEAK: AtomicUsize = AtomicUsize::new(0);
+thread_local! { static WATCH: Cell<bool> = const { Cell::new(false) }; }
+unsafe impl GlobalAlloc for Counting {
+    unsafe fn alloc(&self, l: Layout) -> *mut u8 { if WATCH.try_with(|w| w.get()).unwrap_or(false) { PEAK.fetch_max(l.size(), Ordering::SeqCst); } System.alloc(l) }
+    unsafe fn dealloc(&self, p: *mut u8, l: Layout) { System.dealloc(p, l) }
+    unsafe fn realloc(&self, p: *mut u8, l: Layout, n: usize) -> *mut u8 { if WATCH.try_with(|w| w.get()).unwrap_or(false) { PEAK.fetch_max(n, Ordering::SeqCst); } System.realloc(p, l, n) }
+    unsafe fn alloc_zeroed(&self, l: Layout) -> *mut u8 { if WATCH.try_with(|w| w.get()).unwrap_or(false) { PEAK.fetch_max(l.size(), Ordering::SeqCst); } System.alloc_zeroed(l) }
+}
+#[global_allocator] static ALLOC: Counting = Counting;
+
+/// C05: sizes that are merely declared (Content-Length, chunk sizes) never drive an allocation: a response announcing up to 2^64-1
+/// bytes and delivering a few is an error of the accessors, without panic, and no single allocation exceeds a few hundred KiB
+#[test]
+fn vp_native_declared_sizes_not_allocated() {
+    use std::io::Read;
+    let mut cases = 0u64;
+    let declared = ["300000000", "4294967296", "1099511627776", "9223372036854775807", "9223372036854775808", "18446744073709551615"];
+    for d in declared { for framing in ["length", "chunked"] { for accessor in ["bytes", "text_utf8", "text", "write_to", "read"] {
+        let wire = if framing == "length" { format!("HTTP/1.1 200 OK\r\nContent-Length: {}\r\n\r\nhi", d).into_bytes() }
+                   else { let n: u128 = d.parse().unwrap(); if n > usize::MAX as u128 { continue; } format!("HTTP/1.1 200 OK\r\nTransfer-Encoding: chunked\r\n\r\n{:x}\r\nhi", n).into_bytes() };
+        let req = PreparedRequest::new(Method::GET, "http://a.test/");
+        PEAK.store(0, Ordering::SeqCst);
+        WATCH.with(|w| w.set(true));
+        let outcome = std::panic::catch_unwind(|| {
+            let mut resp = parse_response(BaseStream::mock(wire.clone()), &req, req.url()).unwrap();
+            match accessor {
+                "bytes" => resp.bytes().map(|b| b.len()).map_err(|e| e.to_string()),
+                "text_utf8" => resp.text_utf8().map(|b| b.len()).map_err(|e| e.to_string()),
+                "text" => resp.text().map(|b| b.len()).map_err(|e| e.to_string()),
+                "write_to" => { let mut sink = Vec::new(); resp.write_to(&mut sink).map(|n| n as usize).map_err(|e| e.to_string()) }
+                _ => { let mut b = vec![0u8; 4096]; let mut n = 0; loop { match resp.read(&mut b) { Ok(0) => break Ok(n), Ok(k) => n += k, Err(e) => break Err(e.to_string()) } } }
+            }
+        });
+        WATCH.with(|w| w.set(false));
+        let peak = PEAK.load(Ordering::SeqCst);
+        cases += 1;
+        let ctx = format!("{} framing declaring {} bytes (2 delivered), read with {}", framing, d, accessor);
+        match outcome { Err(_) => panic!("panic: {}", ctx), Ok(Ok(n)) => panic!("{} bytes reported as a complete body: {}", n, ctx), Ok(Err(_)) => {} }
+        assert!(peak <= 512 * 1024, "a single allocation of {} bytes was requested: {}", peak, ctx);
+    } } }
+    println!("VP-NATIVE declared_sizes_not_allocated cases={}", cases);
 }
